@@ -177,6 +177,18 @@ func main() {
 			}()
 			pr.Run(c)
 		}()
+		// cover what the build covers: every non-test Go file under the module root must be part of a loaded package
+		if overlay == nil {
+			missing, nfiles := prog.UnanalysedFiles()
+			if len(missing) > 0 {
+				// Files the default build configuration excludes cannot change the behaviour of the binary that configuration
+				// produces, so this is reported (and recorded in the evidence), not failed.
+				c.Note("file set: %d of %d non-test Go files are excluded from the default build (build constraint or ignored file) and were not analysed: %s", len(missing), nfiles, strings.Join(missing, ", "))
+				fmt.Printf("NOTE %s: not analysed (excluded from the default build): %s\n", id, strings.Join(missing, ", "))
+			} else {
+				c.Note("file set: all %d non-test Go files under the module root are in loaded packages", nfiles)
+			}
+		}
 		c.ApplyFindings(findings)
 		c.SortObs()
 		if only != nil {
